@@ -22,7 +22,7 @@
   subject-continue`, `fix-ttl-comment-eof`):
     * D11  Turtle `( … )` in subject position is handled as in TriG (`()` is rdf:nil, a non-empty
            collection is followed by a *required* predicateObjectList that may continue with `;`);
-    * D30  TriG pushed the `;`-continuation of a subject collection with the *outer* evaluation
+    * D40  TriG pushed the `;`-continuation of a subject collection with the *outer* evaluation
            context (nil subject): `(1) <p> <o> ; <q> <r> .` emitted `(nil, q, r)`;
     * D13  a comment that ends the input hands EOF to the pending scan function instead of
            `terminate()`.
